@@ -22,10 +22,13 @@ import (
 	discovery "github.com/envoyproxy/go-control-plane/envoy/service/discovery/v3"
 
 	credscontroller "istio.io/istio/pilot/pkg/credentials"
+	"istio.io/istio/pilot/pkg/features"
 	"istio.io/istio/pilot/pkg/model"
 	"istio.io/istio/pilot/pkg/model/credentials"
 	securitymodel "istio.io/istio/pilot/pkg/security/model"
 	"istio.io/istio/pkg/cluster"
+	"istio.io/istio/pkg/config/schema/kind"
+	"istio.io/istio/pkg/slices"
 	"istio.io/istio/pkg/spiffe"
 	"istio.io/istio/pkg/util/sets"
 	"istio.io/istio/pkg/verif"
@@ -639,4 +642,137 @@ func invPushDeltaNewNames(newResourceNames sets.String, w *model.WatchedResource
 		verif.Forall(func(x string) bool {
 			return hasName(newResourceNames, x) == ((hasName(w.ResourceNames, x) && !inStrings(rem, len(rem), x)) || sentName(res, rangeindex+1, x))
 		})
+}
+
+// ---------------------------------------------------------------------------------------------
+// C01 / C02: per-type push decisions; "a merged request is never weaker"
+// ---------------------------------------------------------------------------------------------
+
+// Helpers whose value matters only as a fixed function of the proxy (what the gateways of a router
+// looked like before and after, which waypoint a proxy is): uninterpreted.
+//
+//verif:pure istio.io/istio/pilot/pkg/model.WaypointKeyForProxy (istio.io/istio/pilot/pkg/model.WaypointReference).Matches
+//verif:pure (*istio.io/istio/pilot/pkg/model.MergedGateway).HasAutoPassthroughGateways (*istio.io/istio/pilot/pkg/model.PrevMergedGateway).HasAutoPassthroughGateway
+//verif:pure (*istio.io/istio/pilot/pkg/model.MergedGateway).GetAutoPassthroughGatewaySNIHosts (*istio.io/istio/pilot/pkg/model.PrevMergedGateway).GetAutoPassthroughSNIHosts
+//verif:pure (*istio.io/istio/pilot/pkg/model.MergedGateway).GetGatewayNames (*istio.io/istio/pilot/pkg/model.PrevMergedGateway).GetGatewayNames
+//verif:pure istio.io/istio/pkg/slices.EqualUnordered (istio.io/istio/pkg/util/sets.Set).Equals
+
+func cuHas(req *model.PushRequest, k model.ConfigKey) bool {
+	_, ok := req.ConfigsUpdated[k]
+	return ok
+}
+
+func wuHas(req *model.PushRequest, r model.WaypointReference) bool {
+	_, ok := req.WaypointsUpdated[r]
+	return ok
+}
+
+// waypointAttached: some updated waypoint reference concerns this proxy.
+func waypointAttached(req *model.PushRequest, proxy *model.Proxy) bool {
+	key := model.WaypointKeyForProxy(proxy)
+	return verif.Exists(func(r model.WaypointReference) bool { return wuHas(req, r) && r.Matches(key) })
+}
+
+//verif:contract waypointNeedsPush
+//verif:prop C01 C02
+func ctWaypointNeedsPush(req *model.PushRequest, proxy *model.Proxy) {
+	verif.Requires("request-and-proxy-present", req != nil && proxy != nil)
+	r := waypointNeedsPush(req, proxy)
+	verif.Ensures("address-change-that-concerns-this-waypoint", r == (model.VerifHasKind(req.ConfigsUpdated, kind.Address) &&
+		(proxy.IsAmbientEastWestGateway() || !features.ScopedAddressPushes || waypointAttached(req, proxy))))
+}
+
+//verif:invariant waypointNeedsPush 1
+func invWaypointNeedsPush(req *model.PushRequest, key model.WaypointKey) bool {
+	return verif.Forall(func(r model.WaypointReference) bool {
+		return !(wuHas(req, r) && verif.Visited(req.WaypointsUpdated, r)) || !r.Matches(key)
+	})
+}
+
+// cdsRelevant: a changed key of this kind matters for the clusters of this proxy (the skip tables).
+func cdsRelevant(k model.ConfigKey, proxy *model.Proxy) bool {
+	if proxy.Type == model.Router {
+		if _, f := pushCdsGatewayConfig[k.Kind]; f {
+			return true
+		}
+	}
+	return !skippedCdsConfigs.Contains(k.Kind)
+}
+
+func cdsGatewayShapeChanged(proxy *model.Proxy) bool {
+	return proxy.MergedGateway.HasAutoPassthroughGateways() != proxy.PrevMergedGateway.HasAutoPassthroughGateway() ||
+		!proxy.MergedGateway.GetAutoPassthroughGatewaySNIHosts().Equals(proxy.PrevMergedGateway.GetAutoPassthroughSNIHosts()) ||
+		proxy.MergedGateway == nil || !slices.EqualUnordered(proxy.MergedGateway.GetGatewayNames(), proxy.PrevMergedGateway.GetGatewayNames())
+}
+
+// cdsHeadlessOnly: the request is nothing but headless-endpoint notifications (the CDS short cut).
+func cdsHeadlessOnly(req *model.PushRequest) bool {
+	return req.Reason.Has(model.HeadlessEndpointUpdate) && !req.Reason.Has(model.ServiceUpdate) && model.VerifAllKind(req.ConfigsUpdated, kind.ServiceEntry)
+}
+
+// cdsDecision: the push decision of cdsNeedsPush, as a function of the request and the proxy.
+func cdsDecision(req *model.PushRequest, proxy *model.Proxy) bool {
+	if proxy.Type == model.Ztunnel {
+		return false
+	}
+	if req == nil || req.Forced {
+		return true
+	}
+	if proxy.Type == model.Waypoint && model.VerifHasKind(req.ConfigsUpdated, kind.Address) &&
+		(proxy.IsAmbientEastWestGateway() || !features.ScopedAddressPushes || waypointAttached(req, proxy)) {
+		return true
+	}
+	if cdsHeadlessOnly(req) {
+		return false
+	}
+	return (proxy.Type == model.Router && model.VerifHasKind(req.ConfigsUpdated, kind.Gateway) && cdsGatewayShapeChanged(proxy)) ||
+		verif.Exists(func(k model.ConfigKey) bool { return cuHas(req, k) && cdsRelevant(k, proxy) })
+}
+
+//verif:contract cdsNeedsPush
+//verif:prop C01 C02
+func ctCdsNeedsPush(req *model.PushRequest, proxy *model.Proxy) {
+	verif.Requires("proxy-present", proxy != nil)
+	out, push := cdsNeedsPush(req, proxy)
+	verif.Ensures("decision", push == verif.Old(func() bool { return cdsDecision(req, proxy) }))
+	// from the statement (C01): forced requests are never narrowed away
+	verif.Ensures("forced-always-pushes", req == nil || !verif.Old(func() bool { return req.Forced }) || proxy.Type == model.Ztunnel || push)
+	// the request handed on only ever narrows ConfigsUpdated to the relevant keys; the input request is not written
+	verif.Ensures("input-request-untouched", req == nil || model.VerifRequestUntouched(req))
+	verif.Ensures("narrowed-request-keeps-relevant-keys", req == nil || out == nil || verif.Forall(func(k model.ConfigKey) bool {
+		return !(verif.Old(func() bool { return cuHas(req, k) }) && cdsRelevant(k, proxy)) || cuHas(out, k) || !push
+	}))
+}
+
+//verif:invariant cdsNeedsPush 1
+func invCdsNeedsPush(req *model.PushRequest, proxy *model.Proxy, headlessOnly, filtered, checkGateway bool, relevantUpdates sets.Set[model.ConfigKey]) bool {
+	cu := req.ConfigsUpdated
+	seen := func(k model.ConfigKey) bool { return cuHas(req, k) && verif.Visited(cu, k) }
+	return relevantUpdates != nil && verif.Fresh(relevantUpdates) && model.VerifRequestUntouched(req) &&
+		headlessOnly == (req.Reason.Has(model.HeadlessEndpointUpdate) && !req.Reason.Has(model.ServiceUpdate) &&
+			verif.Forall(func(k model.ConfigKey) bool { return !seen(k) || k.Kind == kind.ServiceEntry })) &&
+		checkGateway == (proxy.Type == model.Router && verif.Exists(func(k model.ConfigKey) bool { return seen(k) && k.Kind == kind.Gateway })) &&
+		verif.Forall(func(k model.ConfigKey) bool {
+			_, in := relevantUpdates[k]
+			return in == (seen(k) && cdsRelevant(k, proxy))
+		}) &&
+		filtered == verif.Exists(func(k model.ConfigKey) bool { return seen(k) && !cdsRelevant(k, proxy) })
+}
+
+// From the statement (C02): "debouncing and per-proxy queueing may merge notifications but the merged
+// request always covers ..." - and therefore a type that would have been pushed for one of the merged
+// notifications alone is still pushed for the merged request.
+//
+//verif:lemma
+//verif:prop C01 C02
+func lemmaCdsMergedRequestNeverWeaker(r1, r2 *model.PushRequest, proxy *model.Proxy) {
+	verif.Requires("requests-and-proxy-present", r1 != nil && r2 != nil && proxy != nil)
+	// every notification carries at least one reason (ConfigUpdate callers always set it)
+	verif.Requires("notifications-carry-a-reason", len(r1.Reason) > 0 && len(r2.Reason) > 0)
+	_, alone1 := cdsNeedsPush(r1, proxy)
+	_, alone2 := cdsNeedsPush(r2, proxy)
+	m := r1.CopyMerge(r2)
+	_, merged := cdsNeedsPush(m, proxy)
+	verif.Assert("later-notification-not-lost", !alone2 || merged)
+	verif.Assert("earlier-notification-not-lost", !alone1 || merged)
 }
